@@ -14,6 +14,17 @@ from pycdlib import udf as udfmod, dr as drmod, pycdlibexception  # noqa: E402
 
 LBS = 2048
 
+if h.SYM:
+    # CrossHair turns every bytearray() into a SymbolicByteArray, which io.BytesIO() rejects (TypeError that the
+    # real interpreter never raises).  symlink targets are concrete here, so the real function is run natively.
+    from crosshair.tracers import NoTracing as _NoTracing
+    _orig_s2b = udfmod.symlink_to_bytes
+
+    def _s2b_native(target):
+        with _NoTracing():
+            return _orig_s2b(target)
+    udfmod.symlink_to_bytes = _s2b_native
+
 # ---- configuration families -------------------------------------------------------------------
 
 def cfg_of(il=3, joliet=None, rr=None, udf=False, xa=False):
@@ -70,10 +81,10 @@ def new_iso(cfg, always_consistent=False):
 
 def fkw(cfg, base, d='', rrname=None):
     """keyword arguments naming one file in every namespace the configuration carries"""
-    low = rrname or base.lower()
+    low = base.lower()
     dl = d.lower()
     return dict(iso_path='%s/%s.;1' % (d, base),
-                rr_name=low if cfg['rr'] else None,
+                rr_name=(rrname or low) if cfg['rr'] else None,
                 joliet_path=('%s/%s' % (dl, low)) if cfg['joliet'] else None,
                 udf_path=('%s/%s' % (dl, low)) if cfg['udf'] else None)
 
